@@ -133,7 +133,7 @@ package clickhouse_planner
 // likeLiteral(b): b with every LIKE wildcard escaped, so that it matches itself only.
 //@ spec fn sqlLit(s string) string = "'" + sqlEsc(s) + "'"
 //@ spec fn likeLiteral(b string) string = replaceAll(replaceAll(b, "%", "\\%"), "_", "\\_")
-//@ func (*LineFilterPlanner).enquoteStr [C07,C10]
+//@ func (*LineFilterPlanner).enquoteStr [C07,C10,C14]
 //@   modifies nothing
 //@   ensures result1 == nil && result0 == sqlLit(str)
 //@ func (*LineFilterPlanner).doLike [C07]
@@ -142,7 +142,7 @@ package clickhouse_planner
 // The substring pattern: % + the escaped text of the value (the body of its SQL
 // literal, without the two delimiting quotes and nothing else removed) with all LIKE
 // wildcards escaped + %.
-//@ func (*LineFilterPlanner).doLikeVal [C07,C10]
+//@ func (*LineFilterPlanner).doLikeVal [C07,C10,C14]
 //@   modifies nothing
 //@   ensures result1 == nil ==> isRawCmp(result0)
 //@   ensures pattern: result1 == nil ==> unbox(unbox(result0, "*sql.LogicalOp").clauses[0], "*sql.RawObject").val == likeOp + "(samples.string, '%" + likeLiteral(sqlEsc(val)) + "%')"
@@ -296,3 +296,23 @@ package clickhouse_planner
 //@     modifies p.fpPlanner
 //@     step every-early-label-filter-wraps-the-chain: p.fpPlanner == prev(p.fpPlanner) || (typeis(p.fpPlanner, "*SimpleLabelFilterPlanner") && unbox(p.fpPlanner, "*SimpleLabelFilterPlanner").FPSel == prev(p.fpPlanner))
 //@     step no-early-label-filter-is-skipped: p.simpleLabelOperation[rangeindex] && getPipeline(p.script)[rangeindex].LabelFilter != nil ==> typeis(p.fpPlanner, "*SimpleLabelFilterPlanner") && fresh(unbox(p.fpPlanner, "*SimpleLabelFilterPlanner")) && unbox(p.fpPlanner, "*SimpleLabelFilterPlanner").Expr == getPipeline(p.script)[rangeindex].LabelFilter
+
+// The stream selector {name op "value", ...}: one condition per matcher, "the key is
+// the name and the value satisfies the operator" - = and != compare the value with
+// the literal, =~ asks for a regex match (== 1) and !~ for no match (== 0) - read
+// from the label index bounded below by a day that covers the window start.
+//@ spec fn smKey(c sql.SQLCondition) *sql.LogicalOp = unbox(unbox(c, "*sql.LogicalOp").clauses[0], "*sql.LogicalOp")
+//@ spec fn smVal(c sql.SQLCondition) *sql.LogicalOp = unbox(unbox(c, "*sql.LogicalOp").clauses[1], "*sql.LogicalOp")
+//@ spec fn mShape(c sql.SQLCondition, name string) bool = typeis(c, "*sql.LogicalOp") && unbox(c, "*sql.LogicalOp").fn == "and" && len(unbox(c, "*sql.LogicalOp").clauses) == 2 && typeis(unbox(c, "*sql.LogicalOp").clauses[0], "*sql.LogicalOp") && typeis(unbox(c, "*sql.LogicalOp").clauses[1], "*sql.LogicalOp") && smKey(c).fn == "==" && typeis(smKey(c).clauses[0], "*sql.RawObject") && unbox(smKey(c).clauses[0], "*sql.RawObject").val == "key" && typeis(smKey(c).clauses[1], "*sql.StringVal") && unbox(smKey(c).clauses[1], "*sql.StringVal").val == name
+//@ spec fn mLiteral(c sql.SQLCondition, op string, v string) bool = smVal(c).fn == op && typeis(smVal(c).clauses[0], "*sql.RawObject") && unbox(smVal(c).clauses[0], "*sql.RawObject").val == "val" && typeis(smVal(c).clauses[1], "*sql.StringVal") && unbox(smVal(c).clauses[1], "*sql.StringVal").val == v
+//@ spec fn mRegex(c sql.SQLCondition, want int64, v string) bool = smVal(c).fn == "==" && typeis(smVal(c).clauses[0], "*sqlMatch") && unbox(smVal(c).clauses[0], "*sqlMatch").pattern == v && typeis(smVal(c).clauses[1], "*sql.IntVal") && unbox(smVal(c).clauses[1], "*sql.IntVal").val == want
+//@ func (*StreamSelectPlanner).Process [C07,C13]
+//@   flag checks=-index,-assert
+//@   at sql_select.Ge lower-date-covers-window-start: isDateCol(arg0) ==> fmtDay <= fdiv(ctx.From.UnixNano(), 86400000000000)
+//@   loop 1:
+//@     modifies elems(clauses)
+//@     step names-the-label: mShape(clauses[rangeindex], s.LabelNames[rangeindex])
+//@     step equal: s.Ops[rangeindex] == "=" ==> mLiteral(clauses[rangeindex], "==", s.Values[rangeindex])
+//@     step not-equal: s.Ops[rangeindex] == "!=" ==> mLiteral(clauses[rangeindex], "!=", s.Values[rangeindex])
+//@     step matches: s.Ops[rangeindex] == "=~" ==> mRegex(clauses[rangeindex], 1, s.Values[rangeindex])
+//@     step matches-not: s.Ops[rangeindex] == "!~" ==> mRegex(clauses[rangeindex], 0, s.Values[rangeindex])
